@@ -49,6 +49,9 @@ func genC19(c *Ctx) {
 	c19Derived(c)
 	c19DerivedAccessors(c)
 	c19Codecs(c)
+	c19Aliases(c)
+	c19BgvRejects(c)
+	c19LogNRange(c)
 	c19Exported(c)
 	c19Table(c)
 	c19Hangs(c) // inputs on which the unpatched code never returned
@@ -770,6 +773,8 @@ func c19Schemes(c *Ctx) {
 			}
 		}
 		c.Probe("params_roundtrip", "bgv "+args, "C19-params-roundtrip", c19BgvRoundTrip(params))
+		// every accepted literal must give a working context, at every level
+		c.Probe("bgv_context_works", args, "C19-bgv-context", c19Sanitize(c19BgvContextWorks(params)))
 	}
 	// after acceptance: homomorphic arithmetic against the plaintext computation (N=64)
 	{
